@@ -21,6 +21,7 @@ import (
 //	save
 //	find / cat / dump   (read-only, Sel)      json / table / count / validate / comment (read-only)
 //	repack (Sel)   createfv (Off, Size, Blob = 16-byte name)   tighten   nvcompact     — not modelled in Lean
+//	nvinv (Sel = variable name: invalidate_nvar)   nvkeep (Sel: invalidate_nvar_except a list holding that name)
 type Op struct {
 	Kind  string
 	Where string
@@ -33,7 +34,8 @@ type Op struct {
 var readOnlyKinds = map[string]bool{"find": true, "cat": true, "dump": true, "json": true, "table": true,
 	"count": true, "validate": true, "comment": true}
 
-var unmodelledKinds = map[string]bool{"repack": true, "createfv": true, "tighten": true, "nvcompact": true}
+var unmodelledKinds = map[string]bool{"repack": true, "createfv": true, "tighten": true, "nvcompact": true,
+	"nvinv": true, "nvkeep": true}
 
 func (o Op) ReadOnly() bool  { return readOnlyKinds[o.Kind] }
 func (o Op) Modelled() bool  { return !unmodelledKinds[o.Kind] }
@@ -93,12 +95,14 @@ func (o Op) Word() string {
 		return fmt.Sprintf("ip:%s:%s:%d", o.Where, cps(o.Sel), o.Size)
 	case "dxe":
 		return "dxe:" + hx(o.Blob)
-	case "rm", "rp", "find", "cat", "dump", "repack":
+	case "rm", "rp", "find", "cat", "dump", "repack", "nvinv", "nvkeep":
 		return o.Kind + ":" + cps(o.Sel)
 	case "pe":
 		return fmt.Sprintf("pe:%s:%s", cps(o.Sel), hx(o.Blob))
 	case "createfv":
 		return fmt.Sprintf("createfv:%d:%d:%s", o.Off, o.Size, hx(o.Blob))
+	case "rde": // remove_dxes_except: Sel holds the lines of the list file (selrde.go)
+		return "rde:" + cps(o.Sel)
 	}
 	return o.Kind
 }
@@ -120,12 +124,14 @@ func ParseOp(w string) Op {
 		o.Where, o.Sel, o.Size = fs[1], unCps(fs[2]), num(fs[3])
 	case "dxe":
 		o.Blob = unhx(fs[1])
-	case "rm", "rp", "find", "cat", "dump", "repack":
+	case "rm", "rp", "find", "cat", "dump", "repack", "nvinv", "nvkeep":
 		o.Sel = unCps(fs[1])
 	case "pe":
 		o.Sel, o.Blob = unCps(fs[1]), unhx(fs[2])
 	case "createfv":
 		o.Off, o.Size, o.Blob = num(fs[1]), num(fs[2]), unhx(fs[3])
+	case "rde":
+		o.Sel = unCps(fs[1])
 	case "save", "json", "table", "count", "validate", "comment", "tighten", "nvcompact":
 	default:
 		panic("uefiedit: unknown op " + w)
@@ -172,6 +178,9 @@ func GUIDText(g []byte) string {
 // case always replays the same way.
 func (o Op) cliArgs(step int, dir string, write func(name string, data []byte) string) []string {
 	re := regexp.QuoteMeta(o.Sel)
+	if p, ok := SelPattern(o.Sel); ok {
+		re = p // the selector is a regular expression itself (selre.go)
+	}
 	switch o.Kind {
 	case "if":
 		path := write(fmt.Sprintf("new-%d.ffs", step), o.Blob)
@@ -206,10 +215,16 @@ func (o Op) cliArgs(step int, dir string, write func(name string, data []byte) s
 		return []string{"repack", re}
 	case "createfv":
 		return []string{"create-fv", strconv.Itoa(o.Off), strconv.Itoa(o.Size), GUIDText(o.Blob)}
+	case "rde":
+		return []string{"remove_dxes_except", write(fmt.Sprintf("dxes-%d.txt", step), []byte(o.Sel))}
 	case "tighten":
 		return []string{"tighten_me"}
 	case "nvcompact":
 		return []string{"nvram-compact"}
+	case "nvinv":
+		return []string{"invalidate_nvar", re}
+	case "nvkeep":
+		return []string{"invalidate_nvar_except", write(fmt.Sprintf("keep-%d.txt", step), []byte("# variables to keep\n"+re+"\n"))}
 	}
 	panic("uefiedit: no CLI form for " + o.Kind)
 }
